@@ -117,6 +117,11 @@ func NewLiveDB(db *sqlgen.DB) *LiveDB {
 }
 
 type queryCacheKey struct {
+	// db identifies the handle the query runs through: handles derived with
+	// WithShardLimit / WithDynamicLimit (or connected to another database)
+	// must not share cached results, since the limit check happens inside the
+	// cached computation.
+	db     *sqlgen.DB
 	clause string
 	args   interface{}
 }
@@ -137,7 +142,7 @@ func (ldb *LiveDB) query(ctx context.Context, query *sqlgen.BaseSelectQuery) ([]
 
 	// Build a cache key for the query. Convert the args slice into an array so
 	// it can be stored as a map key.
-	key := queryCacheKey{clause: clause, args: internal.MakeHashable(args)}
+	key := queryCacheKey{db: ldb.DB, clause: clause, args: internal.MakeHashable(args)}
 
 	result, err := reactive.Cache(ctx, key, func(ctx context.Context) (interface{}, error) {
 		// Build a tester for the dependency.
